@@ -729,7 +729,8 @@ def translate_td(repo: Path):
     file = "src/cattrs/gen/typeddicts.py"
     src = (repo / file).read_text()
     mod = ast.parse(src)
-    fn = [n for n in mod.body if isinstance(n, ast.FunctionDef) and n.name == "make_dict_structure_fn"]
+    fn = ([n for n in mod.body if isinstance(n, ast.FunctionDef) and n.name == "_make_dict_structure_fn"]
+          or [n for n in mod.body if isinstance(n, ast.FunctionDef) and n.name == "make_dict_structure_fn"])
     if len(fn) != 1:
         raise T1Unrecognised(file, 0, "make_dict_structure_fn not found")
     guards = []
@@ -848,12 +849,30 @@ def translate_threads(repo: Path):
         sites += src.count("working_set.add(cl)")
         if src.count("working_set.add(cl)") != src.count("working_set.remove(cl)"):
             raise T1Unrecognised(f, 0, "working_set.add / remove are not paired")
-    return {"thread_local": tl, "guarded_generators": sites}
+    # ... and EVERY hook generator that can be re-entered through a reference cycle has the guard (a generator without it runs until
+    # the interpreter's own RecursionError, near which the dispatcher's predicates fail and wrong hooks are chosen and cached: F36)
+    unguarded = []
+    for f, name in GENERATORS:
+        m = ast.parse((repo / f).read_text())
+        fns = [n for n in m.body if isinstance(n, ast.FunctionDef) and n.name == name]
+        if len(fns) != 1:
+            raise T1Unrecognised(f, 0, f"generator {name} not found")
+        body = _src(fns[0])
+        if not ("working_set.add(cl)" in body and "working_set.remove(cl)" in body and "raise RecursionError()" in body and "finally:" in body):
+            unguarded.append(f"{f}:{name}")
+    return {"thread_local": tl, "guarded_generators": sites, "all_generators_guarded": not unguarded, "unguarded_generators": unguarded}
+
+
+GENERATORS = [("src/cattrs/gen/__init__.py", "make_dict_unstructure_fn"), ("src/cattrs/gen/__init__.py", "make_dict_structure_fn"),
+              ("src/cattrs/gen/typeddicts.py", "make_dict_unstructure_fn"), ("src/cattrs/gen/typeddicts.py", "make_dict_structure_fn"),
+              ("src/cattrs/cols.py", "namedtuple_dict_structure_factory"), ("src/cattrs/cols.py", "namedtuple_dict_unstructure_factory")]
 
 
 def emit_threads(t) -> str:
-    return ("(* GENERATED by harness/t1_translate.py from src/cattrs/gen/_consts.py -- do not edit *)\n"
-            f"Definition src_thread_local : bool := {_coq_bool(t['thread_local'])}.\n")
+    return ("(* GENERATED by harness/t1_translate.py from src/cattrs/gen/_consts.py, gen/__init__.py, gen/typeddicts.py, cols.py -- do not edit *)\n"
+            f"Definition src_thread_local : bool := {_coq_bool(t['thread_local'])}.\n"
+            "(* every hook generator adds the class to the working set, refuses re-entry and removes it in a finally *)\n"
+            f"Definition src_all_generators_guarded : bool := {_coq_bool(t['all_generators_guarded'])}.\n")
 
 
 def emit_unions(u) -> str:
@@ -1012,7 +1031,8 @@ def translate_alias(repo: Path):
     mod2 = ast.parse((repo / file2).read_text())
 
     def fn(name):
-        f = [n for n in mod2.body if isinstance(n, ast.FunctionDef) and n.name == name]
+        f = ([n for n in mod2.body if isinstance(n, ast.FunctionDef) and n.name == "_" + name]
+             or [n for n in mod2.body if isinstance(n, ast.FunctionDef) and n.name == name])
         if len(f) != 1:
             raise T1Unrecognised(file2, 0, f"{name} not found")
         return f[0]
